@@ -133,14 +133,23 @@ Section Mods.
 Variable check_only : bool.
 Variable visit_rec : stmt -> M (list stmt).
 Variable call_rec : string -> list expr -> M (pyval * list stmt).
+(* where the statement stands: an invariant of the state that depth bookkeeping does not disturb (nothing at the top level, "the
+   loop variable holds v" inside a loop body); operands and parameters are resolved relative to it *)
+Variable P : st -> Prop.
+Hypothesis P_DE : forall s s', P s -> DE s s' -> P s'.
+Variable env : renv.
+Definition resolves (qs : list qarg) (bits : list bitref) : Prop :=
+  forall s0, Regs env s0 -> P s0 -> get_op_bits call_rec qs (qreg_sizes s0) true s0 = Ok (bits, s0).
+Definition evaluates (args : list expr) (vs : list pyval) : Prop :=
+  forall s0, P s0 -> get_op_parameters call_rec args s0 = Ok (vs, s0).
 
-Lemma basic_apply env s name args vs qs bss inv tgs sts :
-  Regs env s -> mapM (opnd_bits (e_q env)) qs = Some bss -> distinctb [] (List.concat bss) = true ->
-  lower_app env name vs (List.concat bss) inv = Some (tgs, sts) -> cparams args = Some vs ->
+Lemma basic_apply s name args vs qs bits inv tgs sts :
+  Regs env s -> P s -> resolves qs bits ->
+  lower_app env name vs bits inv = Some (tgs, sts) -> evaluates args vs ->
   exists s1, visit_basic_gate check_only call_rec name args qs inv s
              = Ok ((if check_only then [] else List.concat sts), s1) /\ DE s s1 /\ Dstep s s1 (map (map Qr) tgs).
 Proof.
-  intros R Hq Hd Hl Hargs. set (bits := List.concat bss) in *. unfold lower_app in Hl. unfold visit_basic_gate.
+  intros R HP Hq Hl Hargs. unfold lower_app in Hl. unfold visit_basic_gate.
   destruct (lower_entry name inv) as [[[f k] neg]|] eqn:Ee; [|discriminate Hl].
   destruct (negb (Nat.eqb k 0) && Nat.eqb (Nat.modulo (List.length bits) k) 0) eqn:C; [|discriminate Hl].
   apply andb_true_iff in C as [Hk Hmod]. apply negb_true_iff in Hk. apply Nat.eqb_neq in Hk.
@@ -164,14 +173,13 @@ Proof.
                             (if neg then mapMM (fun p => lift (py_binop OpMul (VInt (-1)) p)) ps else ret ps)
                 end) s = Ok (vs', s)).
   { destruct args as [|a0 args0].
-    - apply cparams_nil in Hargs. subst vs. destruct neg; [cbn in Eneg|]; injection Eneg as <-; reflexivity.
-    - rewrite (bind_eq _ _ s vs s (cparams_eval call_rec (a0 :: args0) vs s Hargs)).
+    - pose proof (Hargs s HP) as H0. cbn in H0. injection H0 as <-. destruct neg; [cbn in Eneg|]; injection Eneg as <-; reflexivity.
+    - rewrite (bind_eq _ _ s vs s (Hargs s HP)).
       destruct neg; [now apply negate_all_mapMM|injection Eneg as <-; reflexivity]. }
   rewrite (bind_eq _ _ s vs' s Hp).
   assert (Ht : unroll_targets call_rec qs k s = Ok (chunks (List.length bits) k bits, s)).
   { unfold unroll_targets. rewrite (bind_eq _ _ s s s eq_refl).
-    pose proof (get_op_bits_opnds call_rec env s true qs bss R Hq Hd) as G. cbn iota in G. fold bits in G.
-    rewrite (bind_eq _ _ s bits s G). destruct k as [|k']; [lia|]. rewrite Hmod.
+    rewrite (bind_eq _ _ s bits s (Hq s R HP)). destruct k as [|k']; [lia|]. rewrite Hmod.
     cbn [guard]. rewrite (bind_eq _ _ s tt s eq_refl). reflexivity. }
   rewrite (bind_eq _ _ s _ s Ht).
   assert (Hc : forall tgs0 sts0, mapM (lower_target f vs') tgs0 = Some sts0 ->
@@ -194,35 +202,35 @@ Proof.
   exists s1. split; [reflexivity|]. split; assumption.
 Qed.
 
-Lemma one_application env s name args vs qs bss inv tgs sts :
-  Regs env s -> smemk name (gates s) = false -> mapM (opnd_bits (e_q env)) qs = Some bss -> distinctb [] (List.concat bss) = true ->
-  lower_app env name vs (List.concat bss) inv = Some (tgs, sts) -> cparams args = Some vs ->
+Lemma one_application s name args vs qs bits inv tgs sts :
+  Regs env s -> P s -> smemk name (gates s) = false -> resolves qs bits ->
+  lower_app env name vs bits inv = Some (tgs, sts) -> evaluates args vs ->
   exists s1, (s0 <- getst;;
               if smem name [] then visit_external_gate check_only visit_rec call_rec name args qs inv
               else if smemk name (gates s0) then visit_custom_gate check_only visit_rec call_rec name args qs inv
               else visit_basic_gate check_only call_rec name args qs inv) s
              = Ok ((if check_only then [] else List.concat sts), s1) /\ DE s s1 /\ Dstep s s1 (map (map Qr) tgs).
 Proof.
-  intros R Hng Hq Hd Ha Hargs. rewrite (bind_eq _ _ s s s eq_refl). cbn [smem existsb]. rewrite Hng.
+  intros R HP Hng Hq Ha Hargs. rewrite (bind_eq _ _ s s s eq_refl). cbn [smem existsb]. rewrite Hng.
   eapply basic_apply; eauto.
 Qed.
 
 Fixpoint copies {A} (n : nat) (l : list A) : list A := match n with O => [] | S n' => l ++ copies n' l end.
 
-Lemma repeated_applications env name args vs qs bss inv tgs sts n : forall s,
-  Regs env s -> smemk name (gates s) = false -> mapM (opnd_bits (e_q env)) qs = Some bss -> distinctb [] (List.concat bss) = true ->
-  lower_app env name vs (List.concat bss) inv = Some (tgs, sts) -> cparams args = Some vs ->
+Lemma repeated_applications name args vs qs bits inv tgs sts n : forall s,
+  Regs env s -> P s -> smemk name (gates s) = false -> resolves qs bits ->
+  lower_app env name vs bits inv = Some (tgs, sts) -> evaluates args vs ->
   exists s1, repeatM n (s0 <- getst;;
               if smem name [] then visit_external_gate check_only visit_rec call_rec name args qs inv
               else if smemk name (gates s0) then visit_custom_gate check_only visit_rec call_rec name args qs inv
               else visit_basic_gate check_only call_rec name args qs inv) s
              = Ok ((if check_only then [] else copies n (List.concat sts)), s1) /\ DE s s1 /\ Dstep s s1 (copies n (map (map Qr) tgs)).
 Proof.
-  induction n as [|n IH]; intros s R Hng Hq Hd Ha Hargs; cbn [repeatM copies].
+  induction n as [|n IH]; intros s R HP Hng Hq Ha Hargs; cbn [repeatM copies].
   - exists s. split; [destruct check_only; reflexivity|]. split; [apply DE_refl|apply Dstep_same; reflexivity].
-  - destruct (one_application env s name args vs qs bss inv tgs sts R Hng Hq Hd Ha Hargs) as (s1 & E1 & D1 & S1).
+  - destruct (one_application s name args vs qs bits inv tgs sts R HP Hng Hq Ha Hargs) as (s1 & E1 & D1 & S1).
     assert (Hng1 : smemk name (gates s1) = false) by (now rewrite (DE_gates _ _ D1)).
-    destruct (IH s1 (Regs_DE _ _ _ R D1) Hng1 Hq Hd Ha Hargs) as (s2 & E2 & D2 & S2).
+    destruct (IH s1 (Regs_DE _ _ _ R D1) (P_DE _ _ HP D1) Hng1 Hq Ha Hargs) as (s2 & E2 & D2 & S2).
     rewrite (bind_eq _ _ s (if check_only then [] else List.concat sts) s1 E1).
     rewrite (bind_eq _ _ s1 (if check_only then [] else copies n (List.concat sts)) s2 E2).
     exists s2. split; [unfold ret; destruct check_only; reflexivity|]. split; [eapply DE_trans; eauto|].
@@ -230,20 +238,20 @@ Proof.
 Qed.
 
 (* the modified gate statement *)
-Lemma modified_gate_fix env s mods name args vs qs bss p inv tgs sts :
-  Regs env s -> smemk name (gates s) = false -> cmods mods 1 false = Some (p, inv) -> p < 10000 ->
-  mapM (opnd_bits (e_q env)) qs = Some bss -> distinctb [] (List.concat bss) = true ->
-  lower_app env name vs (List.concat bss) inv = Some (tgs, sts) -> cparams args = Some vs ->
+Lemma modified_gate_fix s mods name args vs qs bits p inv tgs sts :
+  Regs env s -> P s -> smemk name (gates s) = false -> cmods mods 1 false = Some (p, inv) -> p < 10000 ->
+  resolves qs bits ->
+  lower_app env name vs bits inv = Some (tgs, sts) -> evaluates args vs ->
   exists s1, visit_generic_gate check_only [] visit_rec call_rec mods name args qs s
              = Ok ((if check_only then [] else copies (Z.to_nat p) (List.concat sts)), s1) /\ DE s s1 /\
              Dstep s s1 (copies (Z.to_nat p) (map (map Qr) tgs)).
 Proof.
-  intros R Hng Hc Hp Hq Hd Ha Hargs. unfold visit_generic_gate.
+  intros R HP Hng Hc Hp Hq Ha Hargs. unfold visit_generic_gate.
   rewrite (bind_eq _ _ s (VInt p, inv) s (collapse_mods_literal call_rec mods 1 false (p, inv) s Hc)).
   rewrite (bind_eq _ _ s s s eq_refl). rewrite (in_some_function_false env s R), andb_false_r.
   rewrite (bind_eq _ _ s qs s eq_refl). rewrite (bind_eq _ _ s p s eq_refl).
   assert (p <? 10000 = true) as -> by (apply Z.ltb_lt; lia). cbn [guard]. rewrite (bind_eq _ _ s tt s eq_refl).
-  destruct (repeated_applications env name args vs qs bss inv tgs sts (Z.to_nat p) s R Hng Hq Hd Ha Hargs) as (s1 & E1 & D1 & S1).
+  destruct (repeated_applications name args vs qs bits inv tgs sts (Z.to_nat p) s R HP Hng Hq Ha Hargs) as (s1 & E1 & D1 & S1).
   rewrite (bind_eq _ _ s (if check_only then [] else copies (Z.to_nat p) (List.concat sts)) s1 E1).
   exists s1. split; [unfold emit, ret; destruct check_only; reflexivity|]. split; assumption.
 Qed.
@@ -278,7 +286,11 @@ Proof.
   destruct (forallb (op_ok env) (List.concat sts)); [|discriminate H]. injection H as <- <-.
   apply andb_true_iff in C as [C Hd]. apply andb_true_iff in C as [Hng Hp].
   apply Z.ltb_lt in Hp. apply negb_true_iff in Hng.
-  cbn [visit_stmt visit_stmt_body]. eapply modified_gate_fix; eauto. now rewrite HG.
+  cbn [visit_stmt visit_stmt_body].
+  eapply (modified_gate_fix check_only (visit_stmt check_only [] f) (visit_call check_only [] f) (fun _ => True) (fun _ _ _ _ => I) env); eauto.
+  - now rewrite HG.
+  - intros s0 R0 _. pose proof (get_op_bits_opnds (visit_call check_only [] f) env s0 true qubits bss R0 Eb Hd) as GG. exact GG.
+  - intros s0 _. now apply cparams_eval.
 Qed.
 
 Lemma copies_forallb {A} (P : A -> bool) n l : forallb P l = true -> forallb P (copies n l) = true.
